@@ -17,12 +17,15 @@ CONFIGS = {
         (1, [[2], []]), (2, [[2], []]), (1, [[], [2]]), (2, [[], [2]]), (1, [[2], [3]]), (1, [[3], [2]]),
         (1, [[2, 3], [2]]), (1, [[2], [2, 3]]), (1, [[], [3], []]), (1, [[2], [], [3]]),
         (0, [[2, 3], [2]]),
+        # extra axes of extent exactly 1 (one sub-cube, but the axes and coordinates are still there)
+        (2, [[1], []]), (2, [[], [1, 1]]), (2, [[1], [1, 1]]),
     ],
     "thorough": [
         (1, [[2]]), (2, [[2]]), (3, [[2]]), (1, [[3]]), (2, [[3]]), (1, [[2, 3]]), (1, [[1, 4]]), (1, [[3, 2]]), (1, [[4, 1]]),
         (1, [[2], []]), (2, [[2], []]), (1, [[], [2]]), (2, [[], [2]]), (3, [[], [2]]), (1, [[2], [3]]), (1, [[3], [2]]), (2, [[2], [3]]),
         (1, [[2, 3], [2]]), (1, [[2], [2, 3]]), (1, [[1, 4], [3]]), (1, [[], [3], []]), (2, [[], [3], []]), (1, [[2], [], [3]]), (1, [[2], [3], [2]]),
         (0, [[2, 3], [2]]), (2, [[2, 3]]),
+        (2, [[1], []]), (3, [[1], []]), (2, [[], [1, 1]]), (2, [[1], [1, 1]]), (2, [[1, 1], [], [1]]),
     ],
 }
 E = 2
